@@ -23,6 +23,7 @@ class Ctx:
     def __init__(self, fname="f"):
         self.f = z3.Real(fname)
         self.constraints = []
+        self.err_vars = []
         self.n = 0
         self.ceil_log = []
 
@@ -32,7 +33,10 @@ class Ctx:
 
     def fresh_real(self, base="e"):
         self.n += 1
-        return z3.Real("%s%d" % (base, self.n))
+        v = z3.Real("%s%d" % (base, self.n))
+        if base == "fe":
+            self.err_vars.append(v)
+        return v
 
 
 _CTX = None
@@ -268,3 +272,173 @@ def symbolic_run(module, fname="f", names=("ceil", "max", "floor")):
             else:
                 module.__dict__[n] = v
         _CTX = prev
+
+
+# --------------------------------------------------------------------------------------------------
+# Finite-case symbolic values (init.py): a value is a list of (z3 condition, concrete python value)
+# --------------------------------------------------------------------------------------------------
+import ast
+import operator
+import types
+
+
+class EnumCtx:
+    def __init__(self):
+        self.errors = []      # (cond, description)
+
+    def error(self, cond, what):
+        self.errors.append((cond, what))
+
+
+_ECTX = None
+
+
+class SymEnum:
+    def __init__(self, cases):
+        merged = {}
+        order = []
+        for c, v in cases:
+            k = (type(v).__name__, v)
+            if k in merged:
+                merged[k] = z3.Or(merged[k], c)
+            else:
+                merged[k] = c
+                order.append((k, v))
+        self.cases = [(z3.simplify(merged[k]), v) for k, v in order]
+        self.cases = [(c, v) for c, v in self.cases if not z3.is_false(c)]
+
+    @staticmethod
+    def of_int_var(var, values):
+        return SymEnum([(var == v, v) for v in values])
+
+    def map(self, fn):
+        out = []
+        for c, v in self.cases:
+            try:
+                out.append((c, fn(v)))
+            except Exception as e:
+                _ECTX.error(c, "%s: %s" % (type(e).__name__, e))
+        return SymEnum(out)
+
+    def _bin(self, other, fn):
+        if isinstance(other, SymEnum):
+            out = []
+            for c1, v1 in self.cases:
+                for c2, v2 in other.cases:
+                    c = z3.simplify(z3.And(c1, c2))
+                    if z3.is_false(c):
+                        continue
+                    try:
+                        out.append((c, fn(v1, v2)))
+                    except Exception as e:
+                        _ECTX.error(c, "%s: %s" % (type(e).__name__, e))
+            return SymEnum(out)
+        return self.map(lambda v: fn(v, other))
+
+    def __format__(self, spec):
+        return "?"
+
+    def __str__(self):
+        return "?"
+
+    def __repr__(self):
+        return "SymEnum(%d cases)" % len(self.cases)
+
+    def __bool__(self):
+        vals = {bool(v) for c, v in self.cases}
+        if len(vals) == 1:
+            return vals.pop()
+        raise TypeError("symbolic condition in Python control flow")
+
+    def __hash__(self):
+        return id(self)
+
+
+def _mk(op, name, swap=False):
+    def f(self, other):
+        if swap:
+            return self._bin(other, lambda a, b: op(b, a))
+        return self._bin(other, op)
+    f.__name__ = name
+    return f
+
+
+for _n, _op in [("add", operator.add), ("sub", operator.sub), ("mul", operator.mul), ("and", operator.and_), ("or", operator.or_),
+                ("xor", operator.xor), ("lshift", operator.lshift), ("rshift", operator.rshift), ("floordiv", operator.floordiv),
+                ("mod", operator.mod)]:
+    setattr(SymEnum, "__%s__" % _n, _mk(_op, "__%s__" % _n))
+    setattr(SymEnum, "__r%s__" % _n, _mk(_op, "__r%s__" % _n, swap=True))
+for _n, _op in [("lt", operator.lt), ("le", operator.le), ("gt", operator.gt), ("ge", operator.ge), ("eq", operator.eq), ("ne", operator.ne)]:
+    setattr(SymEnum, "__%s__" % _n, _mk(_op, "__%s__" % _n))
+
+
+class SymDict(dict):
+    def __getitem__(self, k):
+        if isinstance(k, SymEnum):
+            out = []
+            for c, v in k.cases:
+                if dict.__contains__(self, v):
+                    out.append((c, dict.__getitem__(self, v)))
+                else:
+                    _ECTX.error(c, "KeyError: %r not in table %s" % (v, sorted(self.keys(), key=repr)[:12]))
+            return SymEnum(out)
+        return dict.__getitem__(self, k)
+
+
+def sym_assert(cond, msg=None):
+    if isinstance(cond, SymEnum):
+        for c, v in cond.cases:
+            if not v:
+                _ECTX.error(c, "AssertionError: %s" % (msg if not isinstance(msg, SymEnum) else "?"))
+        return
+    assert cond, msg
+
+
+def enum_max(*args):
+    if len(args) == 1:
+        args = tuple(args[0])
+    if not any(isinstance(a, SymEnum) for a in args):
+        return max(*args)
+    r = args[0]
+    for a in args[1:]:
+        if isinstance(r, SymEnum):
+            r = r._bin(a, max)
+        else:
+            r = a.map(lambda v, r=r: max(r, v))
+    return r
+
+
+class _InitTransformer(ast.NodeTransformer):
+    def visit_Dict(self, node):
+        self.generic_visit(node)
+        return ast.copy_location(ast.Call(func=ast.Name(id="__SymDict", ctx=ast.Load()), args=[node], keywords=[]), node)
+
+    def visit_Assert(self, node):
+        self.generic_visit(node)
+        args = [node.test] + ([node.msg] if node.msg is not None else [])
+        return ast.copy_location(ast.Expr(ast.Call(func=ast.Name(id="__sym_assert", ctx=ast.Load()), args=args, keywords=[])), node)
+
+
+def load_instrumented(path, modname):
+    """re-compile a module from its CURRENT source with dict literals -> SymDict and assert -> sym_assert"""
+    src = open(path).read()
+    tree = _InitTransformer().visit(ast.parse(src, filename=path))
+    ast.fix_missing_locations(tree)
+    mod = types.ModuleType(modname)
+    mod.__file__ = path
+    mod.__dict__["__SymDict"] = SymDict
+    mod.__dict__["__sym_assert"] = sym_assert
+    exec(compile(tree, path, "exec"), mod.__dict__)
+    mod.__dict__["max"] = enum_max
+    return mod
+
+
+@contextlib.contextmanager
+def enum_run():
+    global _ECTX
+    prev = _ECTX
+    _ECTX = EnumCtx()
+    try:
+        yield _ECTX
+    finally:
+        _ECTX = prev
